@@ -1,7 +1,9 @@
 /* C17: sort_file_list (bin/gensquashfs/src/sort_by_file.c) - the order in
  * which pack_files hands the files to the block processor, i.e. the order of
  * their data in the image. List of N file nodes (N concrete, 0..7), every
- * priority a free signed 64 bit value (negatives, ties, extremes).
+ * priority a free signed 64 bit value (negatives, ties, extremes); a node
+ * without FLAG_FILE_ALREADY_MATCHED has priority 0, listed and unlisted nodes
+ * mixed arbitrarily.
  *
  *  ensures  C17.sort.permutation  the result is a NULL-terminated list of
  *              exactly the N input nodes, each once
@@ -55,6 +57,11 @@ void harness(void)
 		prio[i] = verif_nd_i64("priority");
 		flags[i] = verif_nd_int("flags");
 		nflags[i] = verif_nd_u16("node_flags");
+		/* invariant established by fstree_sort_files (C17.match.
+		 * unlisted_default): a file that matched no line has priority 0.
+		 * Stated so that an implementation which treats unlisted files
+		 * specially is judged on reachable states only. */
+		VERIF_ASSUME((nflags[i] & FLAG_FILE_ALREADY_MATCHED) || prio[i] == 0);
 		NODE(i).data.file.priority = prio[i];
 		NODE(i).data.file.flags = flags[i];
 		NODE(i).data.file.input_file = NULL;
